@@ -586,8 +586,40 @@ def r04_11(ctx):
     pi = repo.func("esp_kconfiglib.kconfig_grammar:KconfigOptionBlock.parseImpl")
     loop_locals_bound_per_iteration(ctx, pi.qual, names=None, why="An unconditional select / imply inherits the `if` of an earlier line in parser 2 only.")
 
+def r04_12(ctx):
+    """R04.12 both expression parsers nest the operators alike: `||` over `&&` over `!` over the relations over atoms - a
+    relation is between two atoms and `!` negates the whole relation (`!A = B` is `!(A = B)`). In parser 2 this is the
+    delegation chain of the recursive-descent methods of KconfigExpression; in parser 1 `_parse_factor` handles `!` by
+    recursing into a factor and builds a relation from a symbol followed by a relation token."""
+    repo = ctx.repo
+    G = "esp_kconfiglib.kconfig_grammar"
+    level = {}
+    for name in ("_parse_or", "_parse_and", "_parse_cmp", "_parse_unary"):
+        f = repo.func(f"{G}:KconfigExpression.{name}")
+        ctx.analysed(f.qual)
+        nxt = set()
+        for c in ast.walk(f.node):
+            if isinstance(c, ast.Call) and ast.unparse(c.func) == "self._parse_binary_op" and len(c.args) >= 4:
+                nxt.add(ast.unparse(c.args[3]).replace("self.", ""))
+            elif isinstance(c, ast.Call) and ast.unparse(c.func).startswith("self._parse_") and ast.unparse(c.func) not in ("self._parse_binary_op", f"self.{name}"):
+                nxt.add(ast.unparse(c.func).replace("self.", ""))
+        level[name] = nxt
+    want = {"_parse_or": {"_parse_and"}, "_parse_and": {"_parse_unary"}, "_parse_unary": {"_parse_cmp"}, "_parse_cmp": {"_parse_atom"}}
+    for name, w in want.items():
+        construct = f"KconfigExpression.{name}/operands are parsed by {sorted(w)[0]}"
+        (ctx.ok(construct, repo.func(f"{G}:KconfigExpression.{name}").loc()) if level[name] == w else
+         ctx.bad(construct, f"operands are parsed by {sorted(level[name])}: the operator nesting differs from parser 1 (where `!` applies to a whole relation and a "
+                 "relation is between two symbols) - e.g. `!A = B` becomes `(!A) = B`, which the evaluator cannot handle", repo.func(f"{G}:KconfigExpression.{name}").loc()))
+    pf = repo.func(f"{CORE}:Kconfig._parse_factor")
+    ctx.analysed(pf.qual)
+    src = ast.unparse(pf.node)
+    construct = "Kconfig._parse_factor/`!` negates a factor, a relation is symbol-relation-symbol"
+    ok = "self._parse_factor()" in src and "_RELATIONS" in src and "self._expect_sym()" in src
+    (ctx.ok(construct, pf.loc()) if ok else ctx.bad(construct, "parser 1's factor rule changed", pf.loc()))
+
+
 def rules():
-    return [("R04.11", r04_11, 3), ("R04.10", r04_10, 4), ("R04.1", r04_1, 20), ("R04.2", r04_2, 25), ("R04.3", r04_3, 14), ("R04.4", r04_4, 8), ("R04.5", r04_5, 5),
+    return [("R04.12", r04_12, 5), ("R04.11", r04_11, 3), ("R04.10", r04_10, 4), ("R04.1", r04_1, 20), ("R04.2", r04_2, 25), ("R04.3", r04_3, 14), ("R04.4", r04_4, 8), ("R04.5", r04_5, 5),
             ("R04.6", r04_6, 3), ("R04.7", r04_7, 3), ("R04.8", r04_8, 4), ("R04.8b", r04_8b, 5), ("R04.9", r04_9, 2)]
 
 
